@@ -209,6 +209,46 @@ func detectEntry(in []byte, limit uint32, entry string) *mimetype.MIME {
 	return mimetype.Detect(in)
 }
 
+// detectPipePaused runs DetectFile on a FIFO whose writer delivers in[:cut], pauses, delivers the
+// rest and closes. The pause only shapes the workload (a reader that settles for the first piece
+// sees a shorter header); no verdict depends on it.
+func detectPipePaused(in []byte, limit uint32, cut int) (*mimetype.MIME, error) {
+	mimetype.SetLimit(limit)
+	ff := filepath.Join(os.TempDir(), fmt.Sprintf("verif-paused-%d.fifo", os.Getpid()))
+	os.Remove(ff)
+	if syscall.Mkfifo(ff, 0o600) != nil {
+		return mimetype.Detect(in), nil // no FIFOs here: fall back to the plain entry point
+	}
+	defer os.Remove(ff)
+	if cut > len(in) {
+		cut = len(in)
+	}
+	done := make(chan struct{})
+	go func() {
+		defer close(done)
+		w, err := os.OpenFile(ff, os.O_WRONLY, 0)
+		if err != nil {
+			return
+		}
+		defer w.Close()
+		if _, err := w.Write(in[:cut]); err != nil {
+			return
+		}
+		time.Sleep(20 * time.Millisecond)
+		w.Write(in[cut:])
+	}()
+	m, err := mimetype.DetectFile(ff)
+	select {
+	case <-done:
+	case <-time.After(3 * time.Second): // harness liveness only
+		if rd, e := os.OpenFile(ff, os.O_RDONLY|syscall.O_NONBLOCK, 0); e == nil {
+			<-done
+			rd.Close()
+		}
+	}
+	return m, err
+}
+
 type iotest1 struct{ r io.Reader }
 
 func (o iotest1) Read(p []byte) (int, error) {
